@@ -340,6 +340,9 @@ def c2s(ctx, fmt, ntraces, maxops):
         if cl.startswith("domain:"):
             excluded += 1
             continue
+        if cl.startswith("known:"):
+            ctx.violation("%s:%s" % (pid, cl[6:]), "known dependency gap: %s" % cl[6:], meta[rec["id"]])
+            continue
         txt = uncps(rec["text"]) if rec["level"] == "text" else None
         if txt is not None and any(c in txt for c in "\\:;") or meta[rec["id"]]["nops"] > 0:
             ctx.nontrivial_add(json.dumps(rec["obj"], sort_keys=True))
